@@ -1,7 +1,7 @@
 """C03 — the position key depends on the position alone: structural clauses C03-PAIR, C03-SCRATCH,
 C03-INIT (DESIGN.md §3)."""
 from facts import (cmp_op, switch_edge_conds, norm, show, deep_strip, walk, strip_refs, is_call_to, callee_name, place_fields, guard_conditions,
-                   static_accesses, mentions_call)
+                   static_accesses, mentions_call, find_calls)
 import gh
 
 EXPLANATION = (
@@ -465,6 +465,16 @@ def rule_scratch(fx, rep):
             rep.obligation(good)
             if not good:
                 bad("right/loop", f"hash xors the castling word of side `{show(se)[:60]}` under the flag of side `{show(g[0][2][1])[:60]}`", t.get("line"))
+            # ... and the word's colour is the colour whose rights are tested
+            owners = find_calls(g[0][2][0], "ByPlayer::for_player")
+            pe_d = deep_strip(pe)
+            side_to_move = isinstance(pe_d, tuple) and pe_d and pe_d[0] == "field" and pe_d[2] == "player"
+            if owners or side_to_move:
+                n += 1
+                good = bool(owners) and show(deep_strip(owners[0][2][1])) == show(pe_d) if owners else False
+                rep.obligation(good)
+                if not good:
+                    bad("right/loop-colour", f"hash xors the castling word of colour `{show(pe)[:60]}` under a right of colour `{show(owners[0][2][1])[:80] if owners else '?'}`: rights held by both colours cancel out of a freshly computed key, so boards that differ only in castling rights share it", t.get("line"))
             continue
         n += 1
         flag = None
@@ -732,6 +742,12 @@ MUTANTS = [
      "edits": [(G, "        self.zobrist.toggle_piece_on_square(sq, piece);\n        self.incremental_eval.set_at", "        self.zobrist.toggle_piece_on_square(sq, Piece::new(piece.player.other(), piece.kind));\n        self.incremental_eval.set_at")]},
     {"name": "make_move edits board directly for en passant victim", "expect": "C03-PAIR/board-writer",
      "edits": [(G, "            let capture_square = to.backward(player);\n            self.remove_at(capture_square);", "            let capture_square = to.backward(player);\n            let victim = self.board.piece_at(capture_square).unwrap();\n            self.board.remove_at(capture_square);\n            self.incremental_eval.remove_at(capture_square, victim);")]},
+    {"name": "castling words of a loop-form hash taken from the side to move (seed C08-5b)", "expect": "C03-SCRATCH/right/loop-colour",
+     "edits": [(Z, "    let [white_castle_rights, black_castle_rights] = game.castle_rights.inner();\n\n    // White\n    if white_castle_rights.king_side {\n        hash ^= castle_rights(Player::White, CastleRightsSide::Kingside);\n    }\n\n    if white_castle_rights.queen_side {\n        hash ^= castle_rights(Player::White, CastleRightsSide::Queenside);\n    }\n\n    // Black\n    if black_castle_rights.king_side {\n        hash ^= castle_rights(Player::Black, CastleRightsSide::Kingside);\n    }\n\n    if black_castle_rights.queen_side {\n        hash ^= castle_rights(Player::Black, CastleRightsSide::Queenside);\n    }\n",
+                "    for player in [White, Black] {\n        let rights = game.castle_rights.for_player(player);\n        for side in [CastleRightsSide::Kingside, CastleRightsSide::Queenside] {\n            if rights.can_castle_to_side(side) {\n                hash ^= castle_rights(game.player, side);\n            }\n        }\n    }\n")]},
+    {"name": "benign: castling words xored in a loop over (colour, side)", "benign": True,
+     "edits": [(Z, "    let [white_castle_rights, black_castle_rights] = game.castle_rights.inner();\n\n    // White\n    if white_castle_rights.king_side {\n        hash ^= castle_rights(Player::White, CastleRightsSide::Kingside);\n    }\n\n    if white_castle_rights.queen_side {\n        hash ^= castle_rights(Player::White, CastleRightsSide::Queenside);\n    }\n\n    // Black\n    if black_castle_rights.king_side {\n        hash ^= castle_rights(Player::Black, CastleRightsSide::Kingside);\n    }\n\n    if black_castle_rights.queen_side {\n        hash ^= castle_rights(Player::Black, CastleRightsSide::Queenside);\n    }\n",
+                "    for player in [White, Black] {\n        let rights = game.castle_rights.for_player(player);\n        for side in [CastleRightsSide::Kingside, CastleRightsSide::Queenside] {\n            if rights.can_castle_to_side(side) {\n                hash ^= castle_rights(player, side);\n            }\n        }\n    }\n")]},
     {"name": "hash skips black queens", "expect": "C03-SCRATCH",
      "edits": [(Z, "    for s in game.board.queens(Black) {\n        hash ^= piece_on_square(Player::Black, PieceKind::Queen, s);\n    }\n", "")]},
     {"name": "hash uses white rook set for black rooks", "expect": "C03-SCRATCH",
